@@ -105,7 +105,7 @@ def cases(tier, seed):
         top = 2 ** dd - 1
         out.append(dict(kind='products', cfg=cfg, ka=[1, 3, 256, 257, top], kb=[0, 2, 256, 258, top - 1], defn=False, fresh=True))
         out.append(dict(kind='products', cfg=cfg, ka=[256, 0x180, 0x155], kb=[257, 0x0ff, 0x100 | 0x0f], defn=False, fresh=True))
-        R = pat.RND(dd, 4, rng, max_len=4, min_len=1, order=list(range(2 ** dd)))
+        R = pat.RND(dd, 4, random.Random(seed * 7919 + 909 + dd), max_len=4, min_len=1, order=list(range(2 ** dd)))   # own stream: later samples keep theirs
         for i in range(len(R) // 2):
             out.append(dict(kind='products', cfg=cfg, ka=list(R[2 * i]), kb=list(R[2 * i + 1]), defn=False, fresh=True))
     # wrapper slices: functions are resolved by name at call time (second pass after all are generated)
